@@ -38,6 +38,27 @@ def runWide (m : Nat → Nat) : Nat → Cpu → Option Cpu
 /-- Where control goes when the bytes `bs` placed at `a` are executed from their first byte:
     up to four instructions of the wide set, until the instruction pointer leaves the bytes.
     Used to judge emitted branches, whatever (decodable) form they take. -/
+def followWideCpu (a : Nat) (bs : List Nat) (rax : Nat) : Option Cpu := Id.run do
+  let m := memOfBytes a bs
+  let mut c : Cpu := { rip := a, gpr := setReg (fun _ => 0) 0 rax, xmm := fun _ => 0, flags := 0 }
+  for _ in [0:4] do
+    let isJump := match decode m c.rip with
+      | some (Instr.jmpRel32 _) => true
+      | some Instr.jmpRax => true
+      | _ => false
+    match stepWide m c with
+    | none => return none
+    | some c' =>
+      c := c'
+      if isJump then return some c
+      if !(a ≤ c.rip && c.rip < a + bs.length) then return none
+  return none
+
+/-- did the followed sequence leave every register other than rax (and rip) as it found it?
+    (all start at 0 in `followWideCpu`) -/
+def onlyRaxTouched (c : Cpu) : Bool :=
+  (List.range 16).all (fun r => r == 0 || c.gpr r == 0) && (List.range 16).all (fun r => c.xmm r == 0) && c.flags == 0
+
 def followWide (a : Nat) (bs : List Nat) (rax : Nat) : Option (Nat × Nat) := Id.run do
   let m := memOfBytes a bs
   let mut c : Cpu := { rip := a, gpr := setReg (fun _ => 0) 0 rax, xmm := fun _ => 0, flags := 0 }
@@ -74,12 +95,15 @@ def handleX86Br (args obs : List String) : Verdict :=
         | some bs =>
           let dest := followWide ori bs 0x5a5a5a5a
           let pOk := (match dest with | some (d, _) => d == target | none => false)
+          -- C13 on the emitted bytes themselves: control arrives at the target with nothing but rax written
+          let ccOk := pOk && (match followWideCpu ori bs 0x5a5a5a5a with | some c => onlyRaxTouched c | none => false)
           let br := if bs.length = 5 then "short" else if bs.length = 12 then "long" else "other"
           let ag := (match model with | Res.ok mb => mb == bs | _ => false)
           Gen.withGen' (Gen.x86Branch mode ori target (some bs)) <|
-          { agree := ag, propOk := pOk, branch := br,
+          { agree := ag, propOk := ccOk, branch := br,
             detail := (if ag then "" else "model=" ++ (match model with | Res.ok mb => hexBytes mb | Res.panic w => "panic:" ++ w)) ++
-                      (if pOk then "" else " dest=" ++ (match dest with | some (d, _) => hex d | none => "undecodable")) }
+                      (if pOk then "" else " dest=" ++ (match dest with | some (d, _) => hex d | none => "undecodable") ++ " key=c01.branch-dest") ++
+                      (if ccOk then "" else " key=c13.x86-branch") }
       | _ => bad "obs"
     | _, _ => bad "args"
   | _, _ => bad "arity"
